@@ -19,7 +19,8 @@ namespace {
 static const int NS = 3;	// vnacal_new_t slots
 static const int ND = 2;	// vnadata_t objects
 
-struct Sess { vnacal_new_t *vnp = nullptr; int type = 0, R = 0, C = 0, F = 0; bool fv = false; bool solved = false; bool endless = false; };	// endless: an iteration limit above 10000 was accepted
+struct Sess { vnacal_new_t *vnp = nullptr; int type = 0, R = 0, C = 0, F = 0; bool fv = false; bool solved = false; bool endless = false; int dead_f = -1; };	// dead_f: every standard of this session reads zero at that frequency index (the system is singular there and only there)
+	// endless: an iteration limit above 10000 was accepted
 
 struct ChWorld {
     Ctx &c;
@@ -135,7 +136,7 @@ static void run_op(ChWorld &w, const Op &op)
 	bool t_type = type == VNACAL_T8 || type == VNACAL_TE10 || type == VNACAL_T16;
 	bool bad = !tok || R < 1 || C < 1 || F < 0 || (tok && t_type && R > C) || (tok && !t_type && R < C);
 	MUST_FAIL(bad, "vnacal_new_alloc", strf("type %ld, %ld x %ld, %ld frequencies", type, R, C, F));
-	if (vnp) { s.vnp = vnp; s.type = (int)type; s.R = (int)R; s.C = (int)C; s.F = (int)F; c.count("probe.session_created"); }
+	if (vnp) { s.vnp = vnp; s.type = (int)type; s.R = (int)R; s.C = (int)C; s.F = (int)F; c.count("probe.session_created"); if (F >= 2 && (op.I(5) == 1 || r.chance(0.25))) { s.dead_f = (int)r.range(1, F - 1); c.count("probe.session_with_a_dead_frequency"); } }
 	return;
     }
     if (k == "vfree") {
@@ -205,6 +206,7 @@ static void run_op(ChWorld &w, const Op &op)
 	    b.shape(std::max(br, 1) + 1, std::max(bc, 1) + 1, std::max(s.F, 1));
 	    a.shape(std::max(ar, 1) + 1, std::max(ac, 1) + 1, std::max(s.F, 1));
 	    fill(a, r); fill(b, r);
+	    if (s.dead_f >= 0 && s.dead_f < s.F) for (auto &v : b.cells) v[(size_t)s.dead_f] = mkc(0, 0);
 	    if (ab && s.F > 0 && op.I(10) % 10 >= 8) { int fs = (int)((op.I(10) / 10) % s.F); for (auto &v : a.cells) v[(size_t)fs] = op.I(10) % 10 == 8 ? mkc(0, 0) : mkc(0.5, 0.25); c.count("probe.singular_a_matrix"); }
 	    // the pointer tables are laid out for the claimed column count
 	    std::vector<cplx *> bp((size_t)std::max(br, 1) * (size_t)std::max(bc, 1)), ap((size_t)std::max(ar, 1) * (size_t)std::max(ac, 1));
@@ -542,6 +544,7 @@ Plan chaos_gen(const std::string &check, const std::string &tier, uint64_t seed,
 	long dim = rng.below(2);	// 1 or 2 ports mostly
 	plan.ops.push_back(mk("new", {slot, type + 0, dim * 10, dim * 10, rng.range(1, 3) * 10}));
 	plan.ops.push_back(mk("setfv", {slot, 0}));
+	if (rng.chance(0.3)) plan.ops.push_back(mk("merror", {slot, 1, rng.below(6), good(), good(), 3}));	// (valid: measurement-error modelling on for this session)
 	int nstd = (int)rng.range(3, 9);
 	for (int q = 0; q < nstd; ++q) plan.ops.push_back(mk("add", {slot, rng.below(5), rng.below(2), good(), good(), 0, 0, 0, good(), good()}));
 	plan.ops.push_back(mk("solve", {slot}));
@@ -556,6 +559,19 @@ Plan chaos_gen(const std::string &check, const std::string &tier, uint64_t seed,
 	plan.ops.push_back(mk("setfv", {slot, 0}));
 	plan.ops.push_back(mk("add", {slot, 0, rng.below(2), 0, 0, 0, 0, 0, good(), good(), 0, 1}));
     };
+    // a session with measurement-error modelling whose standards all read zero at one of the later frequencies: the solve
+    // succeeds at the first frequencies and fails (singular) at that one
+    auto backbone_dead = [&](int slot) {
+	long dim = rng.below(2);
+	plan.ops.push_back(mk("new", {slot, rng.pick(std::vector<long>{0, 1, 2, 3, 6, 8}) * 10, dim * 10, dim * 10, rng.range(2, 4) * 10, 1}));
+	plan.ops.push_back(mk("setfv", {slot, 0}));
+	plan.ops.push_back(mk("merror", {slot, 1, rng.below(6), good(), good(), 3}));	// one noise value for all frequencies, no frequency vector
+	int nstd = (int)rng.range(4, 9);
+	for (int q = 0; q < nstd; ++q) plan.ops.push_back(mk("add", {slot, dim == 0 ? 0 : rng.pick(std::vector<long>{0, 0, 1, 2, 2}), rng.below(2), good(), good(), 0, 0, 0, rng.below(3) * 10, rng.below(3) * 10}));
+	plan.ops.push_back(mk("solve", {slot}));
+	if (rng.chance(0.5)) plan.ops.push_back(mk("solve", {slot}));
+    };
+    if (!c12 && rng.chance(0.1)) backbone_dead((int)rng.below(NS));
     if (c12 && rng.chance(0.4)) backbone_correlated((int)rng.below(NS));
     if (rng.chance(0.7)) backbone((int)rng.below(NS));
     for (long q = 0; q < nops; ++q) {
